@@ -96,6 +96,12 @@ def bound_class(m: Model, it: Interp, cls: ClassRef, base=object, only=None, con
                 dn = d.split('(')[0]
                 if dn in apply_decorators:
                     deco = next((st for st in m.trees[fref.module].body if isinstance(st, ast.FunctionDef) and st.name == dn), None)
+                    if deco is None and fref.owner is not None:
+                        # a decorator defined in the class body itself (and deleted at the end of it)
+                        try:
+                            deco = next((st for st in m.clsdef(fref.owner).body if isinstance(st, ast.FunctionDef) and st.name == dn), None)
+                        except Exception:
+                            deco = None
                     if deco is None:
                         raise AnalysisError(f'decorator {dn} not found in {fref.module}')
                     ns[n] = it.call(deco, [ns[n]])
